@@ -322,6 +322,8 @@ def shard(name, inplace, clear_at=None):
         # "unwarmed": a never-stepped target also for k >= 1. Its lazily shaped recorders do not exist yet, so a refused load is
         # the property's proviso and not reported; an accepted load must give the identical future like any other target.
         targets = [("fresh", 0)] if k == 0 else [("warmed", 1), ("ran", 3), ("cleared", 2), ("unwarmed", 0)]
+        if name == "classifier" and k >= 1:
+            targets.append(("cloned", 1))  # the target is a copy.deepcopy of a warmed prototype (an evaluation copy)
         if clear_at is not None and k == clear_at and k >= 1:
             pass  # the checkpoint is taken right after step k-1; the clear belongs to step k and happens in the continuation
         for tkind, j in targets:
@@ -340,6 +342,9 @@ def shard(name, inplace, clear_at=None):
                     tgt.step(t, salt=3)  # other data
                 if tkind == "cleared":
                     tgt.clear_all()
+                if tkind == "cloned":
+                    import copy
+                    proto, tgt = tgt, copy.deepcopy(tgt)
                 tgt.load(blob)
             except Exception as ex:
                 if tkind == "unwarmed":
@@ -387,6 +392,42 @@ def shard(name, inplace, clear_at=None):
                         ok = False
                         break
             tally.mark("nontrivial", (name, inplace, k, tkind))
+        # ---- the checkpoint handed over in memory (no serialisation) to TWO targets, and the source keeps running: the three
+        # instances must stay independent - the source continues like the uninterrupted run, both targets follow it
+        if k >= 1 and clear_at is None:
+            case = {**cfg, "checkpoint_at": k, "target": "two warmed targets from one in-memory state dict; source continues"}
+            tally.add("evaluations")
+            try:
+                src = Zoo(name, inplace)
+                for t in range(k):
+                    advance(src, t)
+                sd = {kk: m.state_dict() for kk, m in src.mods.items()}
+                tg = []
+                for _ in range(2):
+                    z = Zoo(name, inplace)
+                    z.step(0, salt=3)
+                    for kk, m in z.mods.items():
+                        m.load_state_dict(sd[kk])
+                    tg.append(z)
+                bad = None
+                for t in range(k, T):
+                    for who, z in (("source", src), ("target-1", tg[0]), ("target-2", tg[1])):
+                        out = z.step(t)
+                        for key, v in ref_out[t].items():
+                            if not eq(out[key], v):
+                                bad = (who, t, key, out[key], v)
+                                break
+                        if bad:
+                            break
+                    if bad:
+                        break
+                if bad:
+                    who, t, key, got, v = bad
+                    tally.violation(f"shared-checkpoint:{name}:{who}", {**case, "step": t, "instance": who}, f"step {t}: output '{key}' of the {who} "
+                                    f"{got.reshape(-1).tolist()[:8]} vs uninterrupted {v.reshape(-1).tolist()[:8]} (instances loaded from one dict interfere)")
+                tally.mark("nontrivial", (name, inplace, k, "in-memory"))
+            except Exception as ex:
+                tally.violation(f"exception:shared-checkpoint:{name}:{type(ex).__name__}", case, f"{type(ex).__name__}: {str(ex)[:300]}")
     tally.sample({**cfg, "checkpoint_indices": list(range(T + 1)), "spikes_in_uninterrupted_run": spikes})
     return tally
 
